@@ -179,6 +179,24 @@ def r3_lookup(prog, rep: Report, im):
                 perm_arr = perm[0] if perm else None
                 aligned = key_ok and perm_arr is not None and len(n.body) == 2
     if perm_arr is None:
+        # recognisably wrong: the permutation array is filled as  perm[<original index>] = <sorted position>  (the inverse)
+        for n in walk_own(init.node):
+            if isinstance(n, ast.For) and isinstance(n.iter, ast.Call) and "sorted(" in src(n.iter) and "enumerate(" in src(n.iter):
+                names = [x.id for x in ast.walk(n.target) if isinstance(x, ast.Name)]
+                for st in ast.walk(n):
+                    if isinstance(st, ast.Assign) and isinstance(st.targets[0], ast.Subscript) and isinstance(st.targets[0].slice, ast.Name) \
+                            and isinstance(st.value, ast.Name) and st.targets[0].slice.id in names and st.value.id in names \
+                            and dotted(st.targets[0].value) and dotted(st.targets[0].value)[0] == init.self_name:
+                        outer_enum = isinstance(n.iter, ast.Call) and src(n.iter.func) == "enumerate"
+                        pos_name = names[0] if outer_enum else None
+                        if pos_name and st.value.id == pos_name and st.targets[0].slice.id != pos_name:
+                            rep.viol("C16.R3", init, "sorted-ends",
+                                     f"`{src(st)}` stores the sorted position under the original index: that is the inverse of the "
+                                     f"permutation the lookup needs (sorted position -> original index)",
+                                     scenario="intervals given as [(5,5), (6,9.5), (1,3)]: the lookup picks another interval's start "
+                                              "and value; every fixture of the suite happens to have a self-inverse order",
+                                     line=st.lineno)
+                            return
         rep.unrec("C16.R3", init, "sorted-ends", f"construction of self.{sorted_arr} and its permutation array not recognised")
         return
     rep.check("C16.R3", init, "sorted-ends", aligned and "end" in built_from.lower(),
